@@ -344,7 +344,9 @@ static int
 validate_number_field(const char* p_field, size_t i_size)
 {
 	unsigned char marker = (unsigned char)p_field[0];
-	if (marker == 128 || marker == 255 || marker == 0) {
+	/* tar_atol() takes every field whose first byte has the high bit
+	 * set for base-256 (GNU tar itself only writes 0x80 and 0xff). */
+	if ((marker & 0x80) != 0 || marker == 0) {
 		/* Base-256 marker, there's nothing we can check. */
 		return 1;
 	} else {
